@@ -66,3 +66,22 @@ def no_known(line, out, msg, known):
 def ok_val(out):
     """payload of an `ok ...` line, None for err"""
     return out[3:] if out.startswith("ok ") else None
+
+
+_fp_pairs = [None]
+
+
+def fp_pairs():
+    """corpus of pairs of secp256k1 secret keys whose public keys have the SAME 4-byte BIP32 fingerprint
+    (birthday search, harness/corpus/fp_collisions.json): an identifier the library itself uses and that is
+    not unique, so anything keyed on it (caches, look-ups) is wrong exactly on such pairs"""
+    if _fp_pairs[0] is None:
+        import json
+        d = json.load(open(os.path.join(os.path.dirname(HERE), "corpus", "fp_collisions.json")))
+        _fp_pairs[0] = [(int(e["kA"], 16), int(e["kB"], 16)) for e in d]
+    return _fp_pairs[0]
+
+
+def xkey_string(version, depth, fp, index, chain, key33):
+    """independent Base58Check serialisation of an extended key"""
+    return b58check_enc(version.to_bytes(4, "big") + bytes([depth]) + fp + index.to_bytes(4, "big") + chain + key33)
